@@ -47,7 +47,18 @@ def main():
         d0 = run_demo(lib0)
         meta["demo_clean_exit"] = d0.returncode
         r = sh("git -C %s apply %s" % (wt, os.path.join(a.src, "patch.diff")))
+        if r.returncode != 0:
+            r = sh("git -C %s apply -3 %s" % (wt, os.path.join(a.src, "patch.diff")))     # try a 3-way merge on a newer base
         meta["patch_applies"] = r.returncode == 0
+        if r.returncode != 0:
+            # /repo has moved on (fixes touched the same lines): keep the last evaluation, note that it is from an older base
+            oldp = os.path.join(ROOT, "seeded", a.name, "meta.json")
+            if os.path.exists(oldp):
+                old = json.load(open(oldp))
+                old["no_longer_applies_at"] = meta["base_commit"]
+                json.dump(old, open(oldp, "w"), indent=1)
+                print("patch no longer applies at %s; kept the evaluation from base %s" % (meta["base_commit"][:7], old.get("base_commit", "?")[:7]))
+                return
         assert r.returncode == 0, r.stderr
         lib1, err = build(wt)
         meta["compiles"] = bool(lib1)
